@@ -31,7 +31,7 @@ def run(ctx):
     algs = p.try_fold(f.mod, ast.Name(id="FINGERPRINT_ALGORITHMS", ctx=ast.Load()))
     want = set(hashlib.algorithms_guaranteed) | set(spec.JAVA_NAMES) | {spec.RABIN_NAME}
     ctx.check("C14.R1", "advertised set = hashlib.algorithms_guaranteed | {SHA-256, MD5} | {CRC-64-AVRO}", algs is not None and set(algs) == want, smod.relpath + ":FINGERPRINT_ALGORITHMS", f"FINGERPRINT_ALGORITHMS folds to {sorted(algs) if algs else algs}", "the advertised algorithm set differs from the documented one")
-    hashing = [n for n in walk_local(f.node) if isinstance(n, ast.Call) and (norm(n.func) in ("hashlib.new", "rabin_fingerprint") or norm(n.func).startswith("hashlib."))]
+    hashing = [n for n in walk_local(f.node) if isinstance(n, ast.Call) and (norm(n.func) == "rabin_fingerprint" or (isinstance(n.func, ast.Attribute) and isinstance(n.func.value, ast.Name) and n.func.value.id == "hashlib"))]
     member = f"{alg_p} in FINGERPRINT_ALGORITHMS"
     nonmember = f"{alg_p} not in FINGERPRINT_ALGORITHMS"
     raises = [n for n in walk_local(f.node) if isinstance(n, ast.Raise) and n.exc is not None and "ValueError" in norm(n.exc) and nonmember in true_facts(cfg, cfg.node_of(n))]
